@@ -608,6 +608,7 @@ class Interp:
                         raise PyRaise("TypeError", "numpy in-place true divide on int array")
                     res = ops.arr_map(lambda x: ops.cast_elem(x, "int"), res, dtype="int")
                 cur.elems, cur.fn, cur.length = res.elems, res.fn, res.length
+                ops.write_back(cur)
                 return cur
             return res
         return self.binop(op, cur, val)
